@@ -237,6 +237,38 @@ fn views(_sc: &J) -> J {
             }
         }
     }
+    // concrete Rust views of the same data as the owned values: the summary (kind, printed forms, all query_state answers) must be the same
+    {
+        use std::collections::{BTreeMap, HashMap};
+        let eb: BTreeMap<String, Value> = BTreeMap::new();
+        let eh: HashMap<String, Value> = HashMap::new();
+        let mut b1: BTreeMap<String, Value> = BTreeMap::new(); b1.insert("k".to_owned(), Value::scalar(1i64));
+        let mut h1: HashMap<String, Value> = HashMap::new(); h1.insert("k".to_owned(), Value::scalar(1i64));
+        let ev: Vec<Value> = vec![];
+        let v1: Vec<Value> = vec![Value::scalar(1i64)];
+        let concrete: Vec<(&str, J, J)> = vec![
+            ("BTreeMap/0", view_summary(&eb), view_summary(&eb.to_value())), ("HashMap/0", view_summary(&eh), view_summary(&eh.to_value())),
+            ("BTreeMap/1", view_summary(&b1), view_summary(&b1.to_value())), ("HashMap/1", view_summary(&h1), view_summary(&h1.to_value())),
+            ("Vec/0", view_summary(&ev), view_summary(&ev.to_value())), ("Vec/1", view_summary(&v1), view_summary(&v1.to_value())),
+            ("i64", view_summary(&-7i64), view_summary(&Value::scalar(-7i64))), ("f64", view_summary(&1.5f64), view_summary(&Value::scalar(1.5f64))),
+            ("bool", view_summary(&false), view_summary(&Value::scalar(false))), ("&str", view_summary(&"  "), view_summary(&Value::scalar("  "))),
+            ("String", view_summary(&String::new()), view_summary(&Value::scalar(""))), ("KString", view_summary(&KString::from_ref("é")), view_summary(&Value::scalar("é"))),
+        ];
+        for (name, got, base) in concrete {
+            if got != base {
+                return json!({"outcome": "violation", "wrapper": name, "value": base, "got": got});
+            }
+        }
+        let objs: Vec<Value> = vec![Value::Object(to_obj(Some(&json!({})))), Value::Object(to_obj(Some(&json!({"a": 1}))))];
+        for o in &objs {
+            // Value::source must be the source printer of the object, not its render printer
+            if let Some(ov) = o.as_object() {
+                if format!("{}", o.source()) != format!("{}", ov.as_value().source()) || format!("{}", o.render()) != format!("{}", ov.as_value().render()) {
+                    return json!({"outcome": "violation", "wrapper": "Value::Object source/render", "got": format!("{}", o.source())});
+                }
+            }
+        }
+    }
     let none: Option<Value> = None;
     if view_summary(&none) != view_summary(&Value::Nil) {
         return json!({"outcome": "violation", "wrapper": "None", "got": view_summary(&none)});
